@@ -558,6 +558,7 @@ class DiskWriterFns:
         out = [{"id": "fn/write_bytes_to_buffer", "fn": "wbtb"}]
         for k in (1, 2, 3, 5):
             out.append({"id": "fn/write_to_fat/k%d" % k, "fn": "fat", "k": k, "bounded": None})
+        out.append({"id": "fn/write_to_fat/any-length", "fn": "fatn"})
         for nl, el in ((0, 0), (1, 3), (5, 3), (8, 3), (9, 2), (12, 4)):
             out.append({"id": "fn/write_dir_entry/name%d.ext%d" % (nl, el), "fn": "dir", "nl": nl, "el": el})
         for cls in ("MLPreamble", "BasicPreamble", "Postamble"):
@@ -673,6 +674,75 @@ class DiskWriterFns:
         env.ensure(key + "::post:terminator", mk(z3.Select(A, sym._z(db.FAT_OFFSET + gs[-1])) == sym._z(0xC0 + s_)), ("C08",))
         cond = lambda q: Implies(And(*[q != db.FAT_OFFSET + g for g in gs]), mk(z3.Select(A, sym._z(q)) == z3.Select(A0, sym._z(q))))
         prove_forall(env, cur(), key + "::post:frame", Forall("frame", 0, N, cond), [], ("C08",))
+
+    def s_fatn(self, env, cell, F):
+        """write_to_fat for a chain of ANY length k (1..68): granule list as an array, distinctness through an injectivity ghost
+        P with P[G[j]] == j; loop invariant: links written so far + frame expressed with P (quantifier-free in the slot)"""
+        d, buf, A0 = self._disk(env, F)
+        k = env.hole_int("k", 1, 68)
+        GA = z3.Array("h_chain", z3.IntSort(), z3.IntSort())
+        P = z3.Array("Pinj", z3.IntSort(), z3.IntSort())
+        G = ArrList(GA, k)
+        env.hole_terms["chain"] = ("arr", GA, k.e if isinstance(k, SymInt) else z3.IntVal(k))
+        s_ = env.hole_int("s", 0, 9)
+        key = KEY + "write_to_fat"
+        FAT = db.FAT_OFFSET
+        g = lambda j: SymInt(z3.Select(GA, sym._z(j)))
+
+        def pre(j):          # precondition instance at chain position j: in range and injective
+            return And(g(j) >= 0, g(j) <= 67, mk(z3.Select(P, sym._z(g(j))) == sym._z(j)))
+
+        def written(q, i, A=None):
+            r = q - FAT
+            pr = SymInt(z3.Select(P, sym._z(r)))
+            return And(q >= FAT, q < FAT + 68, pr >= 0, pr < i, mk(z3.Select(GA, pr.e) == sym._z(r)))
+        v = Verifier(env, F.it)
+
+        def init(ctx):
+            return {}
+
+        def havoc(ctx):
+            p = cur()
+            p.fresh += 1
+            buf.arr = z3.Array("A!%d" % p.fresh, z3.IntSort(), z3.IntSort())
+            return {}
+
+        def inv(ctx, i, gh):
+            A = buf.arr
+            return [Forall("links", 0, i, lambda j: mk(z3.Select(A, sym._z(FAT + g(j))) == sym._z(g(j + 1)))),
+                    Forall("frame", 0, N, lambda q: Implies(sym.Not(written(q, i)), mk(z3.Select(A, sym._z(q)) == z3.Select(A0, sym._z(q)))))]
+
+        def step(ctx, i, gh):
+            return {}
+
+        def hyps(ctx, i, q):
+            # named instances of the precondition: at the current chain position, and at q when q is a chain position
+            hs = [pre(i), Implies(And(q >= 0, q < k), pre(q))]
+            r = q - FAT
+            pr = SymInt(z3.Select(P, sym._z(r)))
+            hs.append(Implies(And(pr >= 0, pr < k), pre(pr)))
+            return hs
+        v.loop(key, 0, LoopSpec(("C08",), init, havoc, inv, step, hyps=hyps, assume=lambda ctx, i: [pre(i), pre(i + 1)]))
+        cur().assume(pre(0))
+        cur().assume(pre(k - 1))
+        with v.installed():
+            try:
+                F.method(d, "write_to_fat", G, s_)
+            except Raised as e:
+                env.fail(key + "::raises:none", ("C08", "C13"))
+                return
+        A = buf.arr
+        p = cur()
+        facts = v.facts
+        last = g(k - 1)
+        env.ensure(key + "::post:terminator", mk(z3.Select(A, sym._z(FAT + last)) == sym._z(0xC0 + s_)), ("C08",))
+        hy = lambda q: [pre(k - 1), Implies(And(q >= 0, q < k), pre(q)),
+                        Implies(And(SymInt(z3.Select(P, sym._z(q - FAT))) >= 0, SymInt(z3.Select(P, sym._z(q - FAT))) < k),
+                                pre(SymInt(z3.Select(P, sym._z(q - FAT)))))]
+        prove_forall(env, p, key + "::post:links", Forall("links", 0, k - 1, lambda j: mk(z3.Select(A, sym._z(FAT + g(j))) == sym._z(g(j + 1)))),
+                     [f for f in facts if f.name == "links"], ("C08",), hyps=hy)
+        prove_forall(env, p, key + "::post:frame", Forall("frame", 0, N, lambda q: Implies(sym.Not(written(q, k)),
+                     mk(z3.Select(A, sym._z(q)) == z3.Select(A0, sym._z(q))))), [f for f in facts if f.name == "frame"], ("C08",), hyps=hy)
 
     def s_dir(self, env, cell, F):
         nl, el = cell["nl"], cell["el"]
